@@ -43,6 +43,17 @@ type psWrap struct {
 	keys    map[peer.ID]ic.PubKey
 	touched map[peer.ID]struct{}
 	metaKey map[string]struct{}
+
+	// onConnectedAdd, when armed, runs once inside the next AddAddrs with a connected
+	// lifetime, i.e. in the middle of identify's address update: a scheduling point the
+	// harness uses to let a disconnect happen exactly there.
+	onConnectedAdd func()
+}
+
+func (w *psWrap) arm(f func()) {
+	w.mu.Lock()
+	w.onConnectedAdd = f
+	w.mu.Unlock()
 }
 
 func newPSWrap(ps peerstore.Peerstore, trusting bool) *psWrap {
@@ -63,6 +74,15 @@ func (w *psWrap) AddAddr(p peer.ID, a ma.Multiaddr, ttl time.Duration) {
 }
 func (w *psWrap) AddAddrs(p peer.ID, a []ma.Multiaddr, ttl time.Duration) {
 	w.touch(p)
+	if ttl >= peerstore.ConnectedAddrTTL {
+		w.mu.Lock()
+		f := w.onConnectedAdd
+		w.onConnectedAdd = nil
+		w.mu.Unlock()
+		if f != nil {
+			f()
+		}
+	}
 	w.Peerstore.AddAddrs(p, a, ttl)
 }
 func (w *psWrap) SetAddr(p peer.ID, a ma.Multiaddr, ttl time.Duration) {
